@@ -231,6 +231,17 @@ pub fn string_op<'b>(ctx: &mut Ctx, bump: &'b Bump, s: &mut BString<'b>, t: &mut
             let nt: String = if b & 1 == 0 { x.chars().collect() } else { x.chars().rev().collect() };
             return SAfter::New(ns, nt);
         }
+        18 if c & 1 == 1 => {
+            // clone_from a source of another length: the destination's old text (and where its characters
+            // happened to start) must not matter
+            let src_text = text(a, (b % 9) as usize);
+            let src = {
+                let _g = enter_arena(1);
+                BString::from_str_in(&src_text, bump)
+            };
+            let src_t = src_text.clone();
+            ctx.both(&format!("String::clone_from({:?}) onto len {len}", src_text), || s.clone_from(&src), || t.clone_from(&src_t));
+        }
         18 => {
             let ns = {
                 let _g = enter_arena(1);
